@@ -192,6 +192,9 @@ func (u *Unmarshaler) Unmarshal(serialized []byte) (*Biscuit, error) {
 	}
 
 	symbols.Extend(authority.symbols)
+	if err := checkDeclaredSymbols(authority, symbols); err != nil {
+		return nil, err
+	}
 
 	blocks := make([]*Block, len(container.Blocks))
 	for i, sb := range container.Blocks {
@@ -213,6 +216,9 @@ func (u *Unmarshaler) Unmarshal(serialized []byte) (*Biscuit, error) {
 		}
 		blocks[i] = block
 		symbols.Extend(blocks[i].symbols)
+		if err := checkDeclaredSymbols(block, symbols); err != nil {
+			return nil, err
+		}
 	}
 
 	return &Biscuit{
@@ -221,6 +227,88 @@ func (u *Unmarshaler) Unmarshal(serialized []byte) (*Biscuit, error) {
 		blocks:    blocks,
 		container: container,
 	}, nil
+}
+
+// ErrUndeclaredSymbol is returned for a block that refers to a string which neither the
+// default table, nor an earlier block, nor the block itself declares.
+var ErrUndeclaredSymbol = errors.New("biscuit: block refers to an undeclared symbol")
+
+// checkDeclaredSymbols verifies that every string a block refers to (predicate names,
+// string terms, also inside sets and expressions) is declared by the time the block is
+// read: symbols holds the default table extended by the tables of the blocks up to and
+// including this one. Otherwise the index would be resolved against whatever a later
+// block declares, and appending a block could change what an earlier block means.
+func checkDeclaredSymbols(block *Block, symbols *datalog.SymbolTable) error {
+	known := func(s datalog.String) bool {
+		if uint64(s) < uint64(datalog.OFFSET) {
+			return uint64(s) < uint64(len(datalog.DEFAULT_SYMBOLS))
+		}
+		return uint64(s)-uint64(datalog.OFFSET) < uint64(symbols.Len())
+	}
+	var term func(t datalog.Term) bool
+	term = func(t datalog.Term) bool {
+		switch v := t.(type) {
+		case datalog.String:
+			return known(v)
+		case datalog.Set:
+			for _, e := range v {
+				if !term(e) {
+					return false
+				}
+			}
+		}
+		return true
+	}
+	predicate := func(p datalog.Predicate) bool {
+		if !known(p.Name) {
+			return false
+		}
+		for _, t := range p.Terms {
+			if !term(t) {
+				return false
+			}
+		}
+		return true
+	}
+	rule := func(r datalog.Rule) bool {
+		if !predicate(r.Head) {
+			return false
+		}
+		for _, p := range r.Body {
+			if !predicate(p) {
+				return false
+			}
+		}
+		for _, e := range r.Expressions {
+			for _, op := range e {
+				if v, ok := op.(datalog.Value); ok && !term(v.ID) {
+					return false
+				}
+			}
+		}
+		return true
+	}
+
+	if block.facts != nil {
+		for _, f := range *block.facts {
+			if !predicate(f.Predicate) {
+				return ErrUndeclaredSymbol
+			}
+		}
+	}
+	for _, r := range block.rules {
+		if !rule(r) {
+			return ErrUndeclaredSymbol
+		}
+	}
+	for _, c := range block.checks {
+		for _, q := range c.Queries {
+			if !rule(q) {
+				return ErrUndeclaredSymbol
+			}
+		}
+	}
+	return nil
 }
 
 type BlockBuilder interface {
